@@ -37,6 +37,12 @@ INPLACE_METHODS = {"sort", "fill", "partition", "put", "resize", "itemset", "set
 CONTAINER_MUTATORS = {"append", "extend", "insert", "remove", "clear", "update", "setdefault", "reverse", "popitem", "add", "discard"}
 INPLACE_FUNCS_ARG0 = {"numpy.random.shuffle", "random.shuffle", "numpy.fill_diagonal", "numpy.put", "numpy.place", "numpy.copyto", "numpy.putmask", "numpy.put_along_axis", "numpy.add.at", "numpy.subtract.at", "numpy.multiply.at"}
 RNG_INPLACE_METHODS = {"shuffle"}  # <generator>.shuffle(x) permutes x in place
+# drawing from a generator consumes (mutates) its state
+RNG_DRAW_METHODS = {
+    "shuffle", "permutation", "randint", "rand", "randn", "random", "random_sample", "choice", "normal", "uniform", "integers",
+    "standard_normal", "binomial", "poisson", "exponential", "bytes", "sample", "seed", "beta", "gamma",
+}
+RNG_IDENTITY_FUNCS = {"check_random_state"}  # returns its argument when it already is a generator
 UFUNCS_OUT3 = {
     "multiply", "add", "subtract", "divide", "true_divide", "floor_divide", "minimum", "maximum", "power", "mod", "fmod",
     "logical_and", "logical_or", "logical_xor", "bitwise_and", "bitwise_or", "arctan2", "hypot", "fmax", "fmin", "copysign",
@@ -293,6 +299,8 @@ class Effects:
         short = dotted(f).split(".")[-1] if dotted(f) else None
         if name in VIEW_FUNCS or (name == "numpy.array" and const_value(kwarg(call, "copy")) is False):
             return ("single", self.alias(call.args[0], st, fi) if call.args else EMPTY)
+        if short in RNG_IDENTITY_FUNCS and call.args:
+            return ("single", self.alias(call.args[0], st, fi))
         if short in VALIDATORS_1 or short in VALIDATORS_2:
             c = kwarg(call, "copy")
             if c is not None and const_value(c) is True:
@@ -519,6 +527,10 @@ class Effects:
                 roots = self.alias(f.value, st, fi)
                 if roots:
                     sites.append(WriteSite(roots, call, f".{f.attr}() works in place"))
+            if f.attr in RNG_DRAW_METHODS and not (name or "").startswith(("numpy.random.", "random.")):
+                roots = self.alias(f.value, st, fi)
+                if roots:
+                    sites.append(WriteSite(roots, call, f".{f.attr}() consumes the generator's state"))
             if f.attr in RNG_INPLACE_METHODS and call.args and name not in INPLACE_FUNCS_ARG0:
                 roots = self.alias(call.args[0], st, fi)
                 if roots:
